@@ -21,8 +21,7 @@ RULE = ('Engine "serial-exhaustive": for each of a list of small DAGs (3-6 nodes
         'injector restricted to lab.py (the coordinator\'s interrupt handling) at a drawn k. Engine "fork-lines": the same injector '
         'in the parent of real fork runs (children untouched), k drawn from the dry-run range. Engine "signals": gated fork runs; '
         'at a schedule-chosen resting point (j tasks blocked inside run(), q queued) real SIGINT is delivered to the worker '
-        'processes and to the caller - once (then gates open), twice (gates stay closed), or asynchronously from another thread while the '
-        'caller sits in the real runner\'s wait() and the blocked tasks are released at the same moment; fork and (few) spawn runs. Oracle, single interrupt: run_tasks '
+        'processes and to the caller - once (then gates open) or twice (gates stay closed); fork and (few) spawn runs. Oracle, single interrupt: run_tasks '
         'raises exactly KeyboardInterrupt (never returns, never another exception); nothing is submitted/started after the '
         'interrupt; tasks that were executing finish and are cached; every entry reported cached afterwards loads its correct '
         'value and cached_tasks does not raise; completions processed before the interrupt are cached. Double: still '
@@ -225,6 +224,7 @@ def check_signal(case: dict) -> core.CaseResult:
                     spy.ctl.log('interrupt', 1, 'SIGINT-async')
                     vu.trace('I 1 SIGINT-async')
                     os.kill(os.getpid(), signal.SIGINT)
+            spy.poll_timeout = 0.5      # from here on the spy blocks in the real wait() as long as labtech itself would
             spy._release(list(blocked))
             threading.Thread(target=deliver, daemon=True).start()
 
@@ -247,6 +247,10 @@ def check_signal(case: dict) -> core.CaseResult:
     if st_['sent'] == 0:
         return core.CaseResult(labels=('signal-not-sent',), summary=obs.summary())
     is_async = bool(case.get('async'))
+    if is_async and obs.outcome == 'return':
+        # CPython can lose an asynchronously delivered KeyboardInterrupt (e.g. when it is raised inside a finalizer running in the
+        # main thread): not attributable to labtech; the synchronous engines decide "never returns normally"
+        return core.CaseResult(labels=('signal=async', 'async-interrupt-never-surfaced'), summary=obs.summary(), inconclusive=True)
     findings, nt = judge(spec, obs, st_['sent'], double=double and st_['sent'] > 1, strict_order=not is_async)
     by_name = {n['name']: n for n in spec['nodes']}
     ex = oracles.expect_for(spec, obs)
@@ -366,13 +370,15 @@ def check_drawn(case: dict) -> core.CaseResult:
 
 
 @st.composite
-def signal_case(draw, backend: str = 'fork'):
+def signal_case(draw, backend: str = 'fork', only_async: bool = False):
     sp = draw(specs.dag_spec(min_nodes=3, max_nodes=5 if backend == 'spawn' else 8, backends=(backend,), types=['NN', 'N2', 'Z', 'N3'], wide=True,
                              req_many=True, pre_cache=False, bust=False, contexts=False, max_workers=(1, 2, 3),
                              continue_on_failure=(True, False)))
-    mode = draw(st.sampled_from(['single', 'double', 'async', 'async'] if backend == 'fork' else ['single', 'double']))
+    mode = 'async' if only_async else draw(st.sampled_from(['single', 'double']))
+    if only_async:
+        sp['lab']['continue_on_failure'] = False
     return {'spec': sp, 'rest_index': draw(st.integers(0, 3)), 'double': mode == 'double', 'async': mode == 'async',
-            'delay_ms': draw(st.sampled_from([5, 30, 120]))}
+            'delay_ms': draw(st.sampled_from([2, 5, 10, 30, 120]))}
 
 
 def plan(tier: str) -> list[dict]:
@@ -384,6 +390,10 @@ def plan(tier: str) -> list[dict]:
     jobs += [{'engine': 'fork-sites', 'shard': i, 'hashseed': i} for i in range(6)]
     jobs += [{'engine': 'signals', 'n': 14 if q else 500, 'hashseed': i} for i in range(2)]
     jobs += [{'engine': 'signals-spawn', 'n': 2 if q else 60, 'hashseed': 5}]
+    # NOT registered: 'signals-async' (SIGINT delivered by another thread at an arbitrary instant). It caught seeded C14-r2-3, but an
+    # asynchronous KeyboardInterrupt can also land in Hypothesis / CPython internals of the harness process (observed: lost
+    # interrupts inside finalizers, a SystemError and a segfault of the shard), so it can fail without a labtech defect.
+    # Run it by hand with:  python -m pbt.props.c14_async  (see DESIGN.md section 7).
     return jobs
 
 
@@ -414,6 +424,8 @@ def run_job(rec: core.Recorder, job: dict, seed: int) -> None:
     elif e == 'fork-lines':
         core.run_hypothesis(rec, e, st.one_of(drawn_point('fork', False, False), drawn_point('fork', False, False, gated=True)), check_drawn,
                             max_examples=job['n'], seed=seed, shrink=False)
+    elif e == 'signals-async':
+        core.run_hypothesis(rec, e, signal_case('fork', only_async=True), check_signal, max_examples=job['n'], seed=seed, shrink=False)
     elif e == 'signals-spawn':
         core.run_hypothesis(rec, e, signal_case('spawn'), check_signal, max_examples=job['n'], seed=seed, shrink=False)
     else:
